@@ -68,8 +68,8 @@ theorem partition_independent (t : ElemTask α) (len : Nat) (hna : NoCrossAlias 
 /-- What `elementwise` is for an `ElemTask`: cell `ret[i]` holds `op (arg1[i], arg2[i], ...)`
     evaluated on the ORIGINAL heap; cells that are nobody's `ret[i]` are unchanged. -/
 theorem elementwise_spec (t : ElemTask α) (len : Nat) (hna : NoCrossAlias len t.w t.r) (h : Heap α) :
-    (∀ i, i < len → elementwise t.step t.w len h (t.ret.loc i) = t.op (t.args.map fun a => a.read h i)) ∧
-    (∀ x, (∀ i, i < len → t.ret.loc i ≠ x) → elementwise t.step t.w len h x = h x) := by
+    (∀ i, i < len → (elementwise t.step t.w len h).get (t.ret.loc i) = t.op (t.args.map fun a => a.read h i)) ∧
+    (∀ x, (∀ i, i < len → t.ret.loc i ≠ x) → (elementwise t.step t.w len h).get x = h.get x) := by
   constructor
   · intro i hi
     rw [← runList_range_eq_elementwise t.footprint len hna h]
@@ -151,8 +151,8 @@ example : ¬ NoCrossAlias 3 exCross.w exCross.r := by decide
 /-- ... and the result really depends on the order of the ranges: cell 3 holds 4
     after `execute (0,3)` on `a = [1,1,1,1]` but 2 when the ranges run in reverse. -/
 example :
-    exCross.task 0 3 0 (fun _ => 1) 3 = 4 ∧
-    runRanges exCross.task [⟨2, 3, 0⟩, ⟨1, 2, 1⟩, ⟨0, 1, 2⟩] (fun _ => 1) 3 = 2 ∧
+    (exCross.task 0 3 0 ⟨fun _ => 1⟩).get 3 = 4 ∧
+    (runRanges exCross.task [⟨2, 3, 0⟩, ⟨1, 2, 1⟩, ⟨0, 1, 2⟩] ⟨fun _ => 1⟩).get 3 = 2 ∧
     IsPartition 3 [⟨2, 3, 0⟩, ⟨1, 2, 1⟩, ⟨0, 1, 2⟩] := by
   refine ⟨?_, ?_, by decide⟩
   · simp only [ElemTask.task, Task.ofStep, exec_eq_runList]; decide
